@@ -1,47 +1,104 @@
 --------------------------- MODULE AppLifecycleOps ---------------------------
 (* C20: life cycle of biotite.application wrappers (Application / LocalApp / MSAApp and the
    concrete MSA wrappers).  One operator per public call; the environment (the external
-   program exiting) is its own action.  This is the *specified* behaviour: what the
-   documentation of Application promises plus the property's clean-up obligations.
+   program exiting, or getting stuck on its own output) is its own action.  This is the
+   *specified* behaviour: what the documentation of Application promises plus the property's
+   clean-up obligations.
 
    S = [app, proc, files, cleanups, cwd, res, tool, failed]
      app      : the wrapper's life-cycle state
-     proc     : "none" | "running" | "exited"      (the child process / remote job)
+     proc     : "none" | "running" | "blocked" | "exited"   (the child process / remote job)
+                "running": still working (it hangs until the environment lets it go on);
+                "blocked": it has written more than the OS pipes hold and waits for a reader -
+                           it ends as soon as, and only when, somebody reads its output
      files    : "present" | "absent"               (temporary files; created by the constructor)
      cleanups : number of clean-up runs so far
      cwd      : "home" | "moved"                   (working directory of the calling process)
      res      : "none" | "ready"                   (results evaluated)
-     tool     : behaviour of the external program, constant for a behaviour:
-                "ok" | "reordered" | "rotated" | "exit3" | "garbage" | "missing" | "badopt"
+     tool     : behaviour of the external program, constant for a behaviour; a record of
+                independent dimensions (see Tool below)
      failed   : TRUE after a failed launch (the run has ended; nothing else is specified)
    Step(S, c) = S' extended with oc (outcome) and out (returned value).
    oc in {"ok", "AppStateError", "TimeoutError", "Rejected"} *)
 EXTENDS Integers, Sequences, FiniteSets, TLC
 
 AppStates == {"CREATED", "RUNNING", "FINISHED", "JOINED", "CANCELLED"}
-Tools == {"ok", "reordered", "rotated", "exit3", "garbage", "missing", "badopt"}
-\* "missing": the binary cannot be found (OSError); "badopt": an option setter was given a value
-\* the launcher cannot pass on (TypeError) - both are failures to launch
-LaunchFails == {"missing", "badopt"}
-Calls == {"start", "join", "join_t", "cancel", "state", "setter", "get_alignment",
+
+(* ------------------------------------------------- behaviours of the external program
+   launch : "ok" | "missing" (the binary cannot be found, OSError) | "badopt" (an option setter
+            was given a value the launcher cannot pass on, TypeError) - failures to launch
+   order  : order of the rows in the program's output relative to the input
+   output : "complete" | "truncated" (a row is missing: the program died / gave up half-way)
+            | "garbage" (not an alignment) | "none"
+   ending : how the program ends after it has written that output: exit code 0, a failing exit
+            code, or death by a signal (killed from outside, crash in its own tear-down)
+   vol    : what it writes to its pipes besides the result: a few bytes, or more than an OS
+            pipe holds on STDOUT, on STDERR, on both *)
+Launches == {"ok", "missing", "badopt"}
+Orders == {"identity", "reversed", "rotated"}
+Outputs == {"complete", "truncated", "garbage", "none"}
+Endings == {"exit0", "exit3", "SIGKILL", "SIGTERM", "SIGSEGV"}
+Volumes == {"small", "bigout", "bigerr", "bigboth"}
+Tool(la, ord, ou, en, vo) == [launch |-> la, order |-> ord, output |-> ou, ending |-> en, vol |-> vo]
+DefaultTool == Tool("ok", "identity", "complete", "exit0", "small")
+\* the order of the rows only means something for a complete output
+AllTools ==
+  {Tool("ok", o, "complete", e, v) : o \in Orders, e \in Endings, v \in Volumes}
+  \cup {Tool("ok", "identity", u, e, v) : u \in Outputs \ {"complete"}, e \in Endings, v \in Volumes}
+  \cup {Tool(la, "identity", "complete", "exit0", "small") : la \in {"missing", "badopt"}}
+\* one dimension varied at a time around the default + the combinations that interact
+\* (death by signal after complete / partial output, failure with a long error message,
+\* big volume together with a signal)
+CoreTools ==
+  {DefaultTool,
+   Tool("ok", "reversed", "complete", "exit0", "small"),
+   Tool("ok", "rotated", "complete", "exit0", "small"),
+   Tool("ok", "identity", "garbage", "exit0", "small"),
+   Tool("ok", "identity", "truncated", "exit0", "small"),
+   Tool("ok", "identity", "none", "exit3", "small"),
+   Tool("ok", "identity", "complete", "SIGKILL", "small"),
+   Tool("ok", "reversed", "complete", "SIGSEGV", "small"),
+   Tool("ok", "identity", "truncated", "SIGTERM", "small"),
+   Tool("ok", "identity", "complete", "exit0", "bigout"),
+   Tool("ok", "rotated", "complete", "exit0", "bigerr"),
+   Tool("ok", "reversed", "complete", "exit0", "bigboth"),
+   Tool("ok", "identity", "none", "exit3", "bigerr"),
+   Tool("ok", "identity", "complete", "SIGKILL", "bigout"),
+   Tool("missing", "identity", "complete", "exit0", "small"),
+   Tool("badopt", "identity", "complete", "exit0", "small")}
+
+LaunchFails(t) == t.launch # "ok"
+\* a run is successful exactly when the program delivered a complete alignment AND ended
+\* with exit code 0
+Succeeds(t) == t.launch = "ok" /\ t.output = "complete" /\ t.ending = "exit0"
+BigVolume(t) == t.vol # "small"
+ExitText(t) == CASE t.ending = "exit0" -> "0" [] t.ending = "exit3" -> "3" [] OTHER -> "signal"
+
+Calls == {"start", "join", "join_t", "join_T", "cancel", "state", "setter", "get_alignment",
           "get_order", "get_tree", "get_exit_code", "get_stdout", "get_command",
-          "get_process", "proc_exits", "refresh"}
+          "get_process", "proc_exits", "proc_writes", "refresh"}
+\* "join"   : join()                - waits as long as it takes
+\* "join_t" : join(timeout = short) - expires unless the program has already exited
+\* "join_T" : join(timeout = long)  - long enough for a program that only waits for a reader
+\* "proc_exits" / "proc_writes" are the environment: the program (small volume) ends / the
+\* program (big volume) starts writing and gets stuck on the full pipe.
 \* "refresh" is not a public call: it is the wrapper noticing (at any time it is asked anything)
 \* that the program has exited, RUNNING -> FINISHED.  The documentation says the state
 \* "changes to FINISHED when the application finishes"; the implementation updates its flag
 \* lazily, so the specification lets this silent step happen before or after any call.
 Silent == {"refresh"}
+EnvSteps == {"proc_exits", "proc_writes"}
 
 (* the documented life cycle: in which states a call is accepted *)
 Allowed(c) ==
   CASE c = "start" -> {"CREATED"}
-    [] c \in {"join", "join_t", "cancel"} -> {"RUNNING", "FINISHED"}
+    [] c \in {"join", "join_t", "join_T", "cancel"} -> {"RUNNING", "FINISHED"}
     [] c = "setter" -> {"CREATED"}
     [] c \in {"get_alignment", "get_order", "get_tree"} -> {"JOINED"}
     [] c \in {"get_exit_code", "get_stdout"} -> {"FINISHED", "JOINED"}
     [] c = "get_command" -> {"RUNNING", "FINISHED", "JOINED", "CANCELLED"}
     [] c = "get_process" -> {"RUNNING", "FINISHED"}
-    [] c \in {"state", "proc_exits", "refresh"} -> AppStates
+    [] c \in {"state", "proc_exits", "proc_writes", "refresh"} -> AppStates
 
 With(S, oc, out) ==
   [app |-> S.app, proc |-> S.proc, files |-> S.files, cleanups |-> S.cleanups, cwd |-> S.cwd,
@@ -50,28 +107,33 @@ With(S, oc, out) ==
 \* the end of a run: clean-up runs (once), temp files go away, the child is gone
 EndRun(S, newApp, newRes) ==
   [S EXCEPT !.app = newApp, !.res = newRes, !.cleanups = S.cleanups + 1, !.files = "absent",
-            !.proc = IF S.proc = "running" THEN "exited" ELSE S.proc, !.cwd = "home"]
+            !.proc = IF S.proc \in {"running", "blocked"} THEN "exited" ELSE S.proc, !.cwd = "home"]
 
 \* what the external program's output means, mapped back to input order
-OrderOf(tool) == IF tool = "reordered" THEN "reversed" ELSE IF tool = "rotated" THEN "rotated" ELSE "identity"
+OrderOf(tool) == tool.order
 
+\* the wrapper has read everything the program wrote (a blocked program thereby ends) and
+\* judges the run: non-zero exit, death by signal, unparsable / incomplete output -> rejected
 Evaluate(S) ==
-  IF S.tool \in {"ok", "reordered", "rotated"}
+  IF Succeeds(S.tool)
     THEN With(EndRun(S, "JOINED", "ready"), "ok", "")
-    ELSE With(EndRun(S, "CANCELLED", "none"), "Rejected", "")   \* non-zero exit / unparsable output
+    ELSE With(EndRun(S, "CANCELLED", "none"), "Rejected", "")
 
-\* calls that cannot return in the modelled environment (they would block forever)
-Blocks(S, c) == c = "join" /\ S.proc = "running"
+\* calls whose result the modelled environment does not decide
+Blocks(S, c) ==
+  \/ c \in {"join", "join_T"} /\ S.proc = "running"   \* waits for ever / for the whole long timeout
+  \/ c = "join_t" /\ S.proc = "blocked"               \* a race between the timeout and the reader
 
 Step(S, c) ==
   IF c = "proc_exits" THEN With([S EXCEPT !.proc = "exited"], "ok", "")
+  ELSE IF c = "proc_writes" THEN With([S EXCEPT !.proc = "blocked"], "ok", "")
   ELSE IF c = "refresh" THEN With([S EXCEPT !.app = "FINISHED"], "ok", "")
   ELSE IF S.app \notin Allowed(c) THEN With(S, "AppStateError", "")
   ELSE CASE c = "start" ->
-              IF S.tool \in LaunchFails
+              IF LaunchFails(S.tool)
                 THEN With([EndRun(S, "CANCELLED", "none") EXCEPT !.failed = TRUE], "Rejected", "")
                 ELSE With([S EXCEPT !.app = "RUNNING", !.proc = "running"], "ok", "")
-         [] c = "join" -> Evaluate(S)
+         [] c \in {"join", "join_T"} -> Evaluate(S)
          [] c = "join_t" ->
               IF S.proc = "running"
                 THEN With(EndRun(S, "CANCELLED", "none"), "TimeoutError", "")
@@ -84,14 +146,15 @@ Step(S, c) ==
          [] c = "get_alignment" -> With(S, "ok", "rows_are_inputs_in_input_order")
          [] c = "get_order" -> With(S, "ok", OrderOf(S.tool))
          [] c = "get_tree" -> With(S, "ok", "tree_with_every_sequence_once")
-         [] c = "get_exit_code" -> With(S, "ok", IF S.tool = "exit3" THEN "3" ELSE "0")
+         [] c = "get_exit_code" -> With(S, "ok", ExitText(S.tool))
          [] c = "get_stdout" -> With(S, "ok", "text")
          [] c = "get_command" -> With(S, "ok", "text")
          [] c = "get_process" -> With(S, "ok", S.proc)
 
 Enabled(S, c) ==
   /\ ~S.failed                                   \* after a failed launch nothing is specified
-  /\ (c = "proc_exits" => S.proc = "running")
+  /\ (c = "proc_exits" => (S.proc = "running" /\ ~BigVolume(S.tool)))
+  /\ (c = "proc_writes" => (S.proc = "running" /\ BigVolume(S.tool)))
   /\ (c = "refresh" => (S.app = "RUNNING" /\ S.proc = "exited"))
   /\ ~(S.app \in Allowed(c) /\ Blocks(S, c))
 
@@ -108,14 +171,25 @@ InitState(tool) ==
   [app |-> "CREATED", proc |-> "none", files |-> "present", cleanups |-> 0, cwd |-> "home",
    res |-> "none", tool |-> tool, failed |-> FALSE]
 
+\* the plain history start() - the program does its work - join(), for a program that can be
+\* launched: <<result of start, result of join>>
+PlainRun(tool) ==
+  LET s1 == Step(InitState(tool), "start")
+      s2 == Step(Core(s1), IF BigVolume(tool) THEN "proc_writes" ELSE "proc_exits")
+  IN <<s1, Step(Core(s2), "join")>>
+
 (* ------------------------------------------------------------------ properties of a state *)
 RunEnded(S) == S.app \in {"JOINED", "CANCELLED"} \/ S.failed
 RunEndsClean(S) ==
-  RunEnded(S) => (S.cleanups = 1 /\ S.files = "absent" /\ S.proc # "running" /\ S.cwd = "home")
+  RunEnded(S) => (S.cleanups = 1 /\ S.files = "absent" /\ S.proc \notin {"running", "blocked"}
+                  /\ S.cwd = "home")
 NoCleanupBeforeEnd(S) == ~RunEnded(S) => (S.cleanups = 0 /\ S.files = "present")
 ResultsOnlyAfterJoin(S) == (S.res = "ready") = (S.app = "JOINED")
+\* results are handed out for successful runs only
+ResultsOnlyOfSuccess(S) == (S.res = "ready") => Succeeds(S.tool)
 ProcConsistent(S) ==
   /\ (S.app = "CREATED" => S.proc = "none")
-  /\ (S.app = "RUNNING" => S.proc \in {"running", "exited"})
+  /\ (S.app = "RUNNING" => S.proc \in {"running", "blocked", "exited"})
   /\ (S.app \in {"FINISHED", "JOINED"} => S.proc = "exited")
+  /\ (S.proc = "blocked" => BigVolume(S.tool))
 =============================================================================
